@@ -431,6 +431,23 @@ Definition spec_b (lim pas : nat) (es : list entry) (cancel : option nat) (order
   end
   end.
 
+(* The provider under the engine, the engine's context cancelled inside shot number [m] (0: before
+   Engine.Run): [shots] = the ids shot by [inst] instances (a multiset).  An instance that was
+   cancelled between Acquire and Shoot holds an item that was never shot, so the shots are the
+   acquired cyclic prefix minus at most one item per instance; the instances stop within [slack]
+   shots, never beyond a bound; Engine.Run is back with nil or the context's error and
+   Engine.Wait returns (no instance is left blocked in Acquire). *)
+Definition spec_engine_cancel (lim pas : nat) (es : list entry) (m inst : nat) (shots : list nat)
+           (waited : bool) (rc : runclass) : bool :=
+  let n := length es in
+  let k := length shots in
+  waited && is_rok_or_canceled rc && (m <=? k) && (k <=? m + slack)
+  && match bound lim pas n with Some b => k <=? b | None => true end
+  && forallb (fun i => i <? n) shots
+  && existsb (fun extra =>
+                forallb (fun i => count_id i shots <=? count_id i (ids (cyc_prefix es (k + extra)))) (seq 0 n))
+             (seq 0 (S inst)).
+
 (* The consumer side: what the next Acquire of any instance does once the provider is done
    and the sink is drained (receive from a closed channel returns !ok; from an open empty
    channel it blocks). *)
